@@ -20,7 +20,7 @@ FRONTENDS = ['e2fsck -fy', 'e2fsck -fy -E journal_only', 'debugfs jr']
 RULE = ('Hypothesis draws a journal: block size 1k/2k/4k, tag format 32/64-bit, checksums none/v1(crc32_be)/v2/v3, async_commit, SAME_UUID or per-tag UUID layouts, starting sequence incl. values next to 2^32, start position anywhere incl. 1-14 blocks before the wrap point, '
         '1-8 transactions of 1-40 tags over a pool of 200 target blocks (data blocks of a pre-created file and free blocks), several descriptor blocks per transaction, escaped blocks, revoke blocks before/after the descriptors, 0-7 trailing revoke-only transactions, repeated logging of one block, '
         'and a damage suffix out of %s applied to a drawn transaction. An independent writer lays it into the journal inode or, for the three external-journal configurations, into the journal device; the reference model (scan up to the first transaction that is uncommitted / wrongly sequenced / checksum-invalid; a block keeps the image of the last accepted '
-        'transaction that logged it unless revoked by that or a later one) predicts every pool block. Checked on the results of `e2fsck -fy`, `e2fsck -fy -E journal_only` and `debugfs -w -R jr`: pool blocks equal the model, all other pool blocks untouched, journal superblock s_start == 0, '
+        'transaction that logged it unless revoked by that or a later one) predicts every pool block. Checked on the results of `e2fsck -fy`, `e2fsck -fy -E journal_only` and `debugfs -w -R jr`: pool blocks equal the model, all other pool blocks untouched, journal superblock s_start == 0 and s_sequence beyond every replayed transaction, '
         'needs_recovery clear, and all front-ends byte-identical on the pool. For checksum damage inside a transaction (descriptor/data/revoke block) jbd2 reports an error; there the oracle is: no pool block may hold anything but its original or a logged image, and never the damaged image. '
         'non-trivial = at least one accepted transaction and one of {revoke hit, escape, wrap crossed, repeated block, damage}; distinct by journal structure') % sorted(set(jbd2.DAMAGE))
 
@@ -121,6 +121,11 @@ def body(case, env):
             if not info['weak'] and info['damage'] in ('none', 'stale-tail', 'missing-commit', 'commit-wrong-seq', 'zeroed-desc'):
                 if s_start != 0: return (dict(obs_base, kind='journal-not-empty-after-replay', frontend=fe, s_start=s_start, rc=r.rc, out=r.out[-300:]), fp, True, None, classes)
                 if sb['incompat'] & 4: return (dict(obs_base, kind='needs_recovery-still-set', frontend=fe, rc=r.rc, out=r.out[-300:]), fp, True, None, classes)
+                # the emptied journal must not be able to replay the same transactions again: its next sequence number lies beyond every transaction that was accepted
+                if info['accepted'] >= 1:
+                    s_seq = struct.unpack_from('>I', jsb, 0x18)[0]; first_seq = info['log'][0]['seq']
+                    if ((s_seq - first_seq) & 0xffffffff) < info['accepted']:
+                        return (dict(obs_base, kind='journal-sequence-not-advanced', frontend=fe, s_sequence=s_seq, first_replayed=first_seq, replayed=info['accepted'], rc=r.rc), fp, True, None, classes)
         results[fe] = {n: blk(after, n) for n in pool}
         classes.append('rc:%s:%s' % (fe.split()[0], r.rc))
     if not info['weak']:
